@@ -224,8 +224,10 @@ def check(ctx):
     # also fits whose value is used (assigned) rather than expression statements
     fit_nodes = [c for c in util.method_calls(f.node, "fit")
                  if isinstance(c.func.value, ast.Name) and c.func.value.id == sp]
-    ctx.sites("C20.R1", len(fit_nodes), 2, "solver.fit calls in fit_model (first attempt + retry)")
-    ctx.require(len(fits) == len(fit_nodes), f"{f.where()}: a solver fit call is not a plain statement; shape not recognised")
+    # (a fit made through functools.partial(solver.fit, ..) is read by the def-use engine with the bound arguments in place: it is one
+    # of `fits` without being a syntactic `solver.fit(..)` call)
+    ctx.sites("C20.R1", max(len(fit_nodes), len(fits)), 2, "solver.fit calls in fit_model (first attempt + retry)")
+    ctx.require(len(fits) >= len(fit_nodes), f"{f.where()}: a solver fit call is not a plain statement; shape not recognised")
 
     cfg = CFG(f.node)
     tries = [n for n in ast.walk(f.node) if isinstance(n, ast.Try)]
